@@ -34,6 +34,7 @@ class Evaluator:
         self.empty, self.same_id, self.n_create, self.n_delete, self.allow = row
         self.lists: Dict[str, int] = {}      # local name -> length
         self.vals: Dict[str, object] = {}
+        self.aliases = {'self.mos_readers', 'self._mos_readers'}    # expressions denoting the reader list
         self.allow_name = None
         for a, d in list(zip(fi.node.args.args[::-1], fi.node.args.defaults[::-1])) + list(zip(fi.node.args.kwonlyargs, fi.node.args.kw_defaults)):
             if a.arg == 'allow_incomplete':
@@ -43,7 +44,7 @@ class Evaluator:
     # -- expressions
     def length_of(self, e) -> Optional[int]:
         t = norm(e)
-        if t in ('self.mos_readers', 'self._mos_readers'):
+        if t in self.aliases:
             return self.total
         if isinstance(e, ast.Name) and e.id in self.lists:
             return self.lists[e.id]
@@ -54,7 +55,7 @@ class Evaluator:
         if not isinstance(e, (ast.ListComp, ast.GeneratorExp)) or len(e.generators) != 1:
             return None
         g = e.generators[0]
-        if norm(g.iter) not in ('self.mos_readers', 'self._mos_readers') or len(g.ifs) != 1:
+        if norm(g.iter) not in self.aliases or len(g.ifs) != 1:
             return None
         c = g.ifs[0]
         if not (isinstance(c, ast.Compare) and len(c.ops) == 1 and norm(c.left).endswith('.mos_type')):
@@ -151,6 +152,16 @@ class Evaluator:
             return
         if isinstance(s, ast.Return):
             raise StopIteration
+        if isinstance(s, ast.For) and norm(s.iter) in self.aliases and not s.orelse:
+            # for mr in readers: if mr.ro_id != ro_id: raise ...   (the all(...) test written as a loop)
+            if len(s.body) == 1 and isinstance(s.body[0], ast.If) and not s.body[0].orelse and isinstance(s.body[0].test, ast.Compare) \
+                    and len(s.body[0].test.ops) == 1 and 'ro_id' in norm(s.body[0].test.left) and 'ro_id' in norm(s.body[0].test.comparators[0]):
+                differs = isinstance(s.body[0].test.ops[0], (ast.NotEq, ast.IsNot))
+                mismatch = (not self.empty) and not self.same_id
+                if (mismatch if differs else ((not self.empty) and self.same_id)):
+                    self.run(s.body[0].body)
+                return
+            raise Unrecognised(norm(s)[:120])
         if isinstance(s, ast.Assign) and len(s.targets) == 1:
             t, v = s.targets[0], s.value
             n = self.comp_length(v)
@@ -160,6 +171,7 @@ class Evaluator:
                     self.lists[t.id] = n
                 elif tn == 'self._mos_readers':
                     self.vals['readers_after'] = norm(v)
+                    self.vals['readers_src_ok'] = norm(v.generators[0].iter) in self.aliases
                 else:
                     raise Unrecognised(norm(s))
                 return
@@ -179,11 +191,17 @@ class Evaluator:
                 self.vals['ro_from'] = norm(v)
                 return
             if isinstance(t, ast.Name):
+                if norm(v) in self.aliases:
+                    self.aliases.add(t.id)
+                    return
                 ln = self.length_of(v)
                 if ln is not None:
                     self.lists[t.id] = ln
                 else:
-                    self.vals[t.id] = norm(v)
+                    try:
+                        self.vals[t.id] = self.num(v)
+                    except Unrecognised:
+                        self.vals[t.id] = norm(v)
                 return
             if tn == 'self._mos_readers':
                 self.vals['readers_after'] = norm(v)
@@ -244,7 +262,7 @@ def accept_table(res: CheckResult, prog: Program):
     ok = ro_from.endswith('[0].mos_object') or ro_from.endswith('[-1].mos_object')
     res.add('POST-STATE', fi.short, 'self._ro = <roCreate readers>[0].mos_object', ok, '' if ok else f'self._ro is assigned from {ro_from!r}', fi.file, fi.node.lineno)
     ra = post.get('readers_after', '')
-    ok = 'for' in ra and 'mos_type != RunningOrder' in ra and 'sorted' not in ra and 'reversed' not in ra
+    ok = ' for ' in ra and 'mos_type != RunningOrder' in ra and 'sorted' not in ra and 'reversed' not in ra and post.get('readers_src_ok', True)
     rm = post.get('readers_removed')
     if not ok and rm is not None and ra in ('list(self.mos_readers)', 'list(self._mos_readers)', 'self.mos_readers.copy()', 'self._mos_readers.copy()'):
         # copy-and-remove form: list.remove() compares with ==, so it is the roCreate reader only if MosReader keeps identity equality
